@@ -713,7 +713,8 @@ class Builder:
         try:
             yield
         finally:
-            assert self._scope_stack.pop() == name
+            popped = self._scope_stack.pop() # not inside the assert: it must also happen with -O
+            assert popped == name
 
     @contextmanager
     def Index(self, index):
@@ -735,7 +736,8 @@ class Builder:
         try:
             yield
         finally:
-            assert self._scope_stack.pop() == index
+            popped = self._scope_stack.pop() # not inside the assert: it must also happen with -O
+            assert popped == index
 
     def as_memory_map(self):
         self.freeze()
